@@ -50,28 +50,29 @@ func main() {
 		CaseTimeout: 90 * time.Second,
 		Race:        true,
 		Floors: map[string]int64{
-			"scen_seq":                                    200,
-			"scen_gated":                                  100,
-			"scen_free":                                   50,
-			"scen_ecache":                                 100,
-			"seq_read_through_copied":                     200,
-			"seq_reads_failed":                            50,
-			"seq_puts":                                    200,
-			"seq_findmissing_mixed":                       40,
-			"settled_with_dedup_waiters":                  100,
-			"settled_with_semaphore_waiters":              100,
-			"settled_with_queue_waiters":                  50,
-			"dedup_failure_overlapping_success":           10,
-			"cancelled_while_parked_inside":               10,
-			"climit_saturated":                            40,
-			"success_justified_by_copy":                   100,
-			"success_justified_by_found_by_get":           20,
-			"ecache_hits":                                 200,
-			"ecache_hits_at_exact_duration":               20,
-			"ecache_expired_just_after_duration":          10,
-			"concurrent_read_throughs":                    50,
-			"concurrent_present_reports":                  100,
-			"success_justified_by_queued_existence_cache": 5,
+			"scen_seq":                                    300,
+			"scen_gated":                                  190,
+			"scen_free":                                   80,
+			"scen_ecache":                                 160,
+			"seq_read_through_copied":                     290,
+			"seq_reads_failed":                            250,
+			"seq_puts":                                    580,
+			"seq_findmissing_mixed":                       44,
+			"settled_with_dedup_waiters":                  280,
+			"settled_with_semaphore_waiters":              220,
+			"settled_with_queue_waiters":                  400,
+			"dedup_failure_overlapping_success":           30,
+			"cancelled_while_parked_inside":               30,
+			"climit_saturated":                            100,
+			"success_justified_by_copy":                   490,
+			"success_justified_by_found_by_findmissing":   110,
+			"success_justified_by_queued_existence_cache": 40,
+			"ecache_hits":                                 980,
+			"ecache_hits_at_exact_duration":               110,
+			"ecache_expired_just_after_duration":          140,
+			"concurrent_read_throughs":                    120,
+			"concurrent_present_reports":                  420,
+			"composite_clean_scenarios":                   24,
 		},
 		Assumptions: []string{
 			"an injected backend failure never uses NOT_FOUND (that code means 'the backend does not hold the object', which is the placement the oracle reasons about)",
